@@ -26,6 +26,8 @@ type caseC10 struct {
 	ModelGob string     `json:"model_gob,omitempty"`
 	Model    string     `json:"model"`
 	Plan     []api.Step `json:"plan,omitempty"`
+	DecoyGob string     `json:"decoy_gob,omitempty"`
+	Prelude  []preOp    `json:"prelude,omitempty"`
 	Zero     int        `json:"zero_value_of_type,omitempty"` // 1..16: &T{} of type n-1 instead of a built packet
 	Accept   int        `json:"accept"`                       // -1: writer accepts everything; k: accepts k bytes then fails
 }
@@ -63,11 +65,7 @@ func buildC10(c caseC10) (mq.ControlPacket, model.Packet, error) {
 	if c.Zero > 0 {
 		return api.NewZero(c.Zero - 1), model.Packet{Type: uint8(c.Zero - 1)}, nil
 	}
-	m, err := unpackModel(c.ModelGob)
-	if err != nil {
-		return nil, m, err
-	}
-	return api.Build(&m, c.Plan), m, nil
+	return buildCase{ModelGob: c.ModelGob, Plan: c.Plan, DecoyGob: c.DecoyGob, Prelude: c.Prelude}.build()
 }
 
 func checkC10(c caseC10) (frame []byte, sig, msg string) {
@@ -207,8 +205,8 @@ func TestC10(t *testing.T) {
 		} else {
 			m = genC01(t, typ)
 		}
-		plan := drawPlan(t, &m)
-		base := caseC10{ModelGob: packModel(m), Model: m.String(), Plan: plan, Accept: -1}
+		bc := drawBuildCase(t, &m, typ)
+		base := caseC10{ModelGob: bc.ModelGob, Model: bc.Model, Plan: bc.Plan, DecoyGob: bc.DecoyGob, Prelude: bc.Prelude, Accept: -1}
 		frame, sig, msg := checkC10(base)
 		class := typeName(typ) + "/" + sizeClass(frame)
 		if malformed {
